@@ -67,7 +67,17 @@ func (pt *ParsedTable) ToMarkdown() string {
 		sb.WriteString("|")
 		colIdx := 0
 		for _, cell := range row.Cells {
+			span := cell.ColSpan
+			if span < 1 {
+				span = 1
+			}
 			if cell.IsCovered {
+				// This position is covered by a cell spanning rows: keep its
+				// columns as empty cells so that the following cells stay in place
+				for i := 0; i < span; i++ {
+					sb.WriteString(" |")
+				}
+				colIdx += span
 				continue
 			}
 			// Replace newlines and pipes within cells
@@ -78,9 +88,10 @@ func (pt *ParsedTable) ToMarkdown() string {
 			sb.WriteString(text)
 			sb.WriteString(" |")
 
-			span := cell.ColSpan
-			if span < 1 {
-				span = 1
+			// A cell spanning several columns is followed by empty cells, one per
+			// extra column, so that every row has one cell per grid column
+			for i := 1; i < span; i++ {
+				sb.WriteString(" |")
 			}
 			colIdx += span
 		}
